@@ -170,6 +170,15 @@ claim("C08", "S3",
       "as a type oracle (thorough tier) and is skipped, and said so, if unavailable.",
       "ast taint analysis with container depth; mypy-typed operand scan (thorough)")
 
+claim("C09", "S2",
+      "Guarded-callback discipline over ~230 user-callable parameters: aliases, captures, helper objects, wrappers, "
+      "delegation to other package functions (assume/guarantee) and lazy iterators are propagated to a fixpoint; every "
+      "invocation executed while a notification or scheduled action is processed (L3), directly or through unguarded "
+      "helpers, is enclosed by a handler that catches Exception and routes it; handlers do not swallow.",
+      "Exceptions from non-callable user data (__eq__, iterables) are outside the statement; subscribe-time routing is "
+      "C01-R4; lexical enclosure is used (a guard established dynamically by an unrelated caller is not credited).",
+      "ast taint fixpoint over user callables + enclosing-handler analysis")
+
 na("C15", "arithmetic over run-time timestamps (queue ordering by timestamp + duetime, 'exactly d later'); no structural "
           "clause that is both necessary and robust beyond ownership/guarding/falsy rules already decided under "
           "C02/C03/C08/C09, whose scope includes these files")
